@@ -79,6 +79,8 @@ class Ctx:
         A worker that dies is turned into a violation attributed to this
         property (or attribute_crash_to) and resumed after the offending case."""
         build_kwargs = build_kwargs or {}
+        if self.tier == "quick":
+            timeout = min(timeout, 1200)  # watchdog only: a worker that hits it makes the run inconclusive
         t0 = time.time()
         try:
             binary, env = B.build(engine, cfg, **build_kwargs)
